@@ -33,5 +33,6 @@ pub struct Nlp {
 
     /// Node, lap and position of each player.
     #[br(count = nump)]
+    #[bw(align_after = 4)]
     pub info: Vec<NodeLapInfo>,
 }
